@@ -509,10 +509,29 @@ def _iter(I, args, kw):
     raise Unsupported(f"iter() of {v!r}")
 
 
+@ext(itertools.islice)
+def _islice(I, args, kw):
+    ex = I.ex
+    it = args[0]
+    if is_tagged(it, "opaque-iter"):
+        n = args[1] if len(args) == 2 else None
+        if isinstance(n, int) and n >= 1 and len(args) == 2:
+            return it
+    raise Unsupported("itertools.islice")
+
+
 @ext(next)
 def _next(I, args, kw):
     ex = I.ex
     it = args[0]
+    if is_tagged(it, "opaque-iter"):
+        from .intrinsics import F_any_truth
+
+        if ex.decide(F_any_truth(it[1].t)):
+            return ex.fresh("first_item", "any")
+        if len(args) > 1:
+            return args[1]
+        ex.raise_builtin("StopIteration", "next() of an empty iterable")
     if isinstance(it, HObj) and it.cls.name == "iterator":
         if "items" in it.fields:
             if it.fields["pos"] < len(it.fields["items"]):
